@@ -488,6 +488,15 @@ func runC10(c *Ctx) {
 		{addContent, or(storeTo(treeField), callOf(CalleeFn(tAddMerged, tAdd, tAddFast))), "in-memory tree mutation (ot.tree=…, Tree.AddMergedHead)", realignTree, "rebuildFromStorage / rollback"},
 		{addRaw, callOf(CalleeFn(addToTree)), "addChangesToTree (changes attached in memory)", realignTree, "rollback (rebuildFromStorage)"},
 		{addToTree, callOf(CalleeFn(tAdd, tAddFast, tAddMerged)), "Tree.Add (changes attached in memory)", realignTree, "rollback closure / rebuildFromStorage"},
+		// the rebuild with the sender's heads replaces ot.tree by a tree that contains the new,
+		// not yet stored changes; rebuildFromStorage restores the old tree only when the builder
+		// fails, not when validation of the new tree fails
+		{addToTree, func(in ssa.Instruction) bool {
+			cc, ok := in.(*ssa.Call)
+			return ok && CalleeFn(rebuild)(&cc.Call) && !allArgsNil(&cc.Call)
+		}, "rebuildFromStorage(new heads, …) (live tree replaced by one holding unstored changes)", func(cc *ssa.CallCommon) bool {
+			return (CalleeFn(rebuild)(cc) && allArgsNil(cc)) || CalleeFn(rollbackCl...)(cc)
+		}, "rebuildFromStorage(nil, nil, nil) / rollback closure"},
 		{addRawRecord, or(callOf(CalleeFn(setState)), storeTo(p.Field(al+":aclList.records")), func(in ssa.Instruction) bool {
 			mu, ok := in.(*ssa.MapUpdate)
 			return ok && IsLoadOfField(mu.Map, p.Field(al+":aclList.indexes"))
@@ -551,11 +560,9 @@ func runC10(c *Ctx) {
 				}
 			}
 			rr := Reach(r.fn, ReachOpts{From: m, Cut: cut, Removed: persisted})
-			for _, ret := range Returns(r.fn) {
-				if rr.Reachable(ret) && MaybeErrorExit(ret.(*ssa.Return)) {
-					bad = fmt.Sprintf("after %s at %s the error exit at %s is reachable without %s (witness %s): the live object disagrees with storage after a failed write", r.mutDesc, p.Pos(InstrPos(m)), p.Pos(InstrPos(ret)), r.realDesc, rr.Path(p, ret))
-					badPos = m
-				}
+			for _, ret := range ErrorExitsReachable(r.fn, m, cut, persisted) {
+				bad = fmt.Sprintf("after %s at %s the error exit at %s is reachable without %s (witness %s): the live object disagrees with storage after a failed write", r.mutDesc, p.Pos(InstrPos(m)), p.Pos(InstrPos(ret)), r.realDesc, rr.Path(p, ret))
+				badPos = m
 			}
 		}
 		pos := p.Pos(r.fn.Pos())
@@ -774,4 +781,18 @@ func errResultUsed(call *ssa.Call) bool {
 		}
 	}
 	return false
+}
+
+// allArgsNil: every explicit argument of the call is the nil constant.
+func allArgsNil(cc *ssa.CallCommon) bool {
+	args := callArgs(cc)
+	if len(args) == 0 {
+		return false
+	}
+	for _, a := range args {
+		if !IsNilConst(a) {
+			return false
+		}
+	}
+	return true
 }
